@@ -8,10 +8,11 @@ cp /repo/go.sum "$V/zmc/go.sum"
 # overlays (also patches the third-party copies and creates the empty libjemalloc.a)
 python3 "$V/tools/mkoverlay.py" raft > /dev/null
 python3 "$V/tools/mkoverlay.py" vclock --vclock > /dev/null
+python3 "$V/tools/mkoverlay.py" crash --crash > /dev/null
 # warm the build cache: one binary per engine
 for b in $(ls "$V/zmc/cmd"); do
   ov=raft
-  case $b in storevc) ov=vclock ;; esac
+  case $b in storevc) ov=vclock ;; crashmc) ov=crash ;; dbg) continue ;; esac
   ( cd "$V/zmc" && go build -tags verif -overlay "$V/build/overlay-$ov.json" -o "$V/build/bin/$b" ./cmd/$b ) || { echo "setup: build of $b failed"; exit 1; }
 done
 echo setup ok
